@@ -134,8 +134,11 @@ func ArrayToAppendAction() RewriteAction {
 		newFirstAssignment.Method = ast.AppendAssignment
 		// TODO: what if there is an envelope in the value assignment?
 		if newFirstAssignment.Value.Argument != nil {
-			newFirstAssignment.Value.Argument.Name = newFirstArg.Name
-			newFirstAssignment.Value.Argument.Type = newFirstArg.Type
+			// the argument can be shared with a constructor assignment (promote_options_to_constructor): work on a copy
+			appendedArg := newFirstAssignment.Value.Argument.DeepCopy()
+			appendedArg.Name = newFirstArg.Name
+			appendedArg.Type = newFirstArg.Type
+			newFirstAssignment.Value.Argument = &appendedArg
 		}
 
 		newOpt := option
@@ -202,8 +205,11 @@ func MapToIndexAction() RewriteAction {
 		}})
 		// TODO: what if there is an envelope in the value assignment?
 		if newFirstAssignment.Value.Argument != nil {
-			newFirstAssignment.Value.Argument.Name = newSecondArg.Name
-			newFirstAssignment.Value.Argument.Type = newSecondArg.Type
+			// the argument can be shared with a constructor assignment (promote_options_to_constructor): work on a copy
+			indexedArg := newFirstAssignment.Value.Argument.DeepCopy()
+			indexedArg.Name = newSecondArg.Name
+			indexedArg.Type = newSecondArg.Type
+			newFirstAssignment.Value.Argument = &indexedArg
 		}
 
 		newOpt := option
